@@ -50,6 +50,11 @@ def build_corpus(tier, rng):
               Variant("CCC3d", "tuple", [Field("String")], [DISABLED] if mask & 4 else []),
               Variant("Dee", "named", [Field("u8", "x")], [DISABLED] if mask & 8 else [])]
         items.append(("generic", Item("E", vs, tparams=1)))
+    # a tuple variant next to a NON-tuple variant named <it>Ref / <it>Mut: the non-tuple one gets no try_as methods, so nothing clashes
+    for order in (0, 1):
+        vs = [Variant("Index", "tuple", [Field("usize")]), Variant("IndexMut", "unit"), Variant("IndexRef", "named", [Field("u8", "a"), Field("String", "b")]),
+              Variant("Other", "tuple", [Field("String"), Field("u8")]), Variant("OtherRef", "unit", [], [DISABLED])]
+        items.append(("affix", Item("E", vs if order == 0 else list(reversed(vs)))))
     # lifetimes (EnumIs / EnumTryAs accept them)
     items.append(("lifetime", Item("E", [Variant("Borrowed", "tuple", [Field("&'l0 str"), Field("u8")]), Variant("Owned", "tuple", [Field("String")]),
                                         Variant("Nothing", "unit")], lifetimes=1)))
